@@ -12,10 +12,10 @@ import (
 // ---------------------------------------------------------------- constants of the harness
 
 const (
-	ampleGas         = uint64(1) << 40             // gas of the reference / budget of the in-tree EVM
-	workLimitDefault = uint64(3000000)             // cases doing more work than this on the reference are excluded (families 1 and 3)
-	workLimitShort   = uint64(250000)              // the same for family 2, whose loop-free programs need < 10^5
-	starveThreshold  = ampleGas - workLimitDefault // a step cheaper than this that fails for gas on the reference = caller-supplied-gas artefact
+	ampleGas         = uint64(1) << 40 // gas of the reference / budget of the in-tree EVM where calls nest deeply (family 3): leaves 10^5 gas at depth 1024 under the 63/64 rule
+	ampleGasFlat     = uint64(1) << 33 // the same for families 1 and 2 (no deep nesting, arbitrary memory offsets): from 3*2^32 gas on, memoryGasCost of v1.8.27 (both copies) wraps around for 2^37-byte expansions and the process would try to allocate 137 GB
+	workLimitDefault = uint64(3000000) // cases doing more work than this on the reference are excluded (families 1 and 3)
+	workLimitShort   = uint64(250000)  // the same for family 2, whose loop-free programs need < 10^5
 	callBaseGas      = uint64(700)
 	ctxGasLimit      = uint64(8000000)
 	ctxBlockNumber   = uint64(300)
@@ -143,6 +143,15 @@ type txCase struct {
 	// WorkLimit: the case is excluded when the reference does more than this much
 	// gas worth of instruction work (0 = workLimitDefault)
 	WorkLimit uint64 `json:"work_limit,omitempty"`
+	// Gas: gas of the reference transaction = budget (EVMGasLimit) and gas of the in-tree one (0 = ampleGas)
+	Gas uint64 `json:"gas,omitempty"`
+}
+
+func (k *txCase) gas() uint64 {
+	if k.Gas == 0 {
+		return ampleGas
+	}
+	return k.Gas
 }
 
 func (k *txCase) workLimit() uint64 {
@@ -236,6 +245,7 @@ type meter struct {
 	Steps     int64  `json:"steps"`
 	Work      uint64 `json:"work"`
 	Limit     uint64 `json:"-"`
+	Starve    uint64 `json:"-"` // a step cheaper than this that fails for gas on the reference = caller-supplied-gas artefact
 	MaxDepth  int    `json:"max_depth"`
 	Calls     int    `json:"calls"`
 	SStores   int    `json:"sstores"`
